@@ -24,42 +24,106 @@ fn load_json(path: &str) -> Value {
 pub fn alu_check(path: &str) {
     let r = load_json(path);
     let tab = r.as_array().expect("array");
+    let mut exp: Vec<Vec<u64>> = vec![];
+    for sel in 0..16usize {
+        let row = tab[sel].as_array().expect("row");
+        assert_eq!(row.len(), 131072);
+        exp.push(row.iter().map(|x| x.as_u64().unwrap()).collect());
+    }
     let mut points: u64 = 0;
+    let mut calls: u64 = 0;
     let mut mism: u64 = 0;
     let mut first: Vec<Value> = vec![];
     let mut per_sel = vec![0u64; 16];
+    let mut bad = vec![false; 16 * 131072];
+    let eval = |sel: u8, a: u32, b: u32, cin: u32| -> u64 {
+        match catch_unwind(AssertUnwindSafe(|| {
+            let o = AluOutput::from_input(&AluInput::new(a as u8, b as u8, cin == 1), &alu_sel(sel));
+            o.output() as u64 + 256 * o.carry_out() as u64 + 512 * o.zero_out() as u64 + 1024 * o.negative_out() as u64
+        })) {
+            Ok(g) => g,
+            Err(_) => 1 << 20,
+        }
+    };
+    // the ALU is a FUNCTION of (function, A, B, carry-in): every point is evaluated in several call orders and right after
+    // its "neighbours" (operands swapped, carry-in flipped, another function), so that a result which depends on earlier
+    // calls (cache, leftover state) shows up.  pass 0: ascending; 1: descending; 2: after the swapped operands; 3: after
+    // the flipped carry-in (both directions); 4: after the same operands under every other function; 5: random order.
+    let mut check = |pass: u32, sel: u8, a: u32, b: u32, cin: u32, got: u64, first: &mut Vec<Value>| {
+        let idx = (a * 512 + b * 2 + cin) as usize;
+        let e = exp[sel as usize][idx];
+        if got != e && !bad[sel as usize * 131072 + idx] {
+            bad[sel as usize * 131072 + idx] = true;
+            mism += 1;
+            per_sel[sel as usize] += 1;
+            if per_sel[sel as usize] <= 3 {
+                first.push(json!({"sel": sel, "a": a, "b": b, "cin": cin, "spec": e, "impl": got, "call_order": pass}));
+            }
+        }
+    };
     for sel in 0..16u8 {
-        let row = tab[sel as usize].as_array().expect("row");
-        assert_eq!(row.len(), 131072);
         for a in 0..=255u32 {
             for b in 0..=255u32 {
                 for cin in 0..2u32 {
-                    let idx = (a * 512 + b * 2 + cin) as usize;
-                    let exp = row[idx].as_u64().unwrap();
-                    let got = catch_unwind(AssertUnwindSafe(|| {
-                        let o = AluOutput::from_input(&AluInput::new(a as u8, b as u8, cin == 1), &alu_sel(sel));
-                        o.output() as u64
-                            + 256 * o.carry_out() as u64
-                            + 512 * o.zero_out() as u64
-                            + 1024 * o.negative_out() as u64
-                    }));
                     points += 1;
-                    let got = match got {
-                        Ok(g) => g,
-                        Err(_) => 1 << 20,
-                    };
-                    if got != exp {
-                        mism += 1;
-                        per_sel[sel as usize] += 1;
-                        if per_sel[sel as usize] <= 3 {
-                            first.push(json!({"sel": sel, "a": a, "b": b, "cin": cin, "spec": exp, "impl": got}));
-                        }
+                    calls += 1;
+                    let g = eval(sel, a, b, cin);
+                    check(0, sel, a, b, cin, g, &mut first);
+                }
+            }
+        }
+    }
+    for sel in (0..16u8).rev() {
+        for a in (0..=255u32).rev() {
+            for b in (0..=255u32).rev() {
+                for cin in (0..2u32).rev() {
+                    calls += 1;
+                    let g = eval(sel, a, b, cin);
+                    check(1, sel, a, b, cin, g, &mut first);
+                }
+            }
+        }
+    }
+    for sel in 0..16u8 {
+        for a in 0..=255u32 {
+            for b in 0..=255u32 {
+                for cin in 0..2u32 {
+                    calls += 4;
+                    let _ = eval(sel, b, a, cin);
+                    let g = eval(sel, a, b, cin);
+                    check(2, sel, a, b, cin, g, &mut first);
+                    let _ = eval(sel, a, b, 1 - cin);
+                    let g = eval(sel, a, b, cin);
+                    check(3, sel, a, b, cin, g, &mut first);
+                }
+            }
+        }
+    }
+    for a in (0..=255u32).step_by(3) {
+        for b in (0..=255u32).step_by(5) {
+            for cin in 0..2u32 {
+                for s1 in 0..16u8 {
+                    for s2 in 0..16u8 {
+                        calls += 2;
+                        let _ = eval(s1, a, b, cin);
+                        let g = eval(s2, a, b, cin);
+                        check(4, s2, a, b, cin, g, &mut first);
                     }
                 }
             }
         }
     }
-    println!("{}", json!({"points": points, "mismatches": mism, "per_sel": per_sel, "first": first}));
+    let mut x: u64 = 0x9E3779B97F4A7C15;
+    for _ in 0..6_000_000u32 {
+        x ^= x << 13;
+        x ^= x >> 7;
+        x ^= x << 17;
+        let (sel, a, b, cin) = ((x & 15) as u8, ((x >> 8) & 255) as u32, ((x >> 20) & 255) as u32, ((x >> 32) & 1) as u32);
+        calls += 1;
+        let g = eval(sel, a, b, cin);
+        check(5, sel, a, b, cin, g, &mut first);
+    }
+    println!("{}", json!({"points": points, "calls": calls, "mismatches": mism, "per_sel": per_sel, "first": first}));
 }
 
 fn fresh() -> Machine {
